@@ -27,20 +27,7 @@ def mixed_for(tier):
     return fn
 
 
-def faulted_for(tier):
-    """pairs that contend on one identifier, explored together with one I/O error injected at a symbolic global
-    operation index: the failing call must still release and notify, the waiting call must not sleep forever"""
-    def fn(w):
-        def pairs():
-            return [([step.StoreObj(0, 0), step.StoreObj(1, 0)], MIX_INITS[0]),
-                    ([step.Delete(0), step.StoreObj(1, 0)], ("a bound to X", {"bind_0": 0, "obj_0": True})),
-                    ([step.StoreMeta(0, 0, None), step.StoreMeta(0, 1, None)], MIX_INITS[1]),
-                    ([step.Delete(0), step.DeleteMeta(0, None, all_docs=True)], MIX_INITS[1])]
-        out = []
-        for calls, (iname, init) in pairs()[:(4 if tier == "thorough" else 2)]:
-            out.append(("%s || from: %s || one I/O error" % (" || ".join(c.label for c in calls), iname), init, calls))
-        return out
-    return fn
+faulted_for = C13.faulted_for
 
 
 def two_instances_for(tier):
@@ -61,6 +48,38 @@ def two_instances_for(tier):
     return fn
 
 
+# identifiers the text codec cannot encode (what os.listdir / os.fsdecode return for a file name that is not UTF-8):
+# whatever the call answers, it returns and leaves nothing locked
+ODD_ARGS = dict(pids=["a", "b"], contents=[C_ONE], formats=[None], fake_cid=False, sym_dirs=False,
+                threading_mod=fault.SEQ_THREADING, multiprocessing_mod=fault.SEQ_MULTIPROCESSING)
+ODD_MINE = {"instance-state", "call-does-not-return"}
+
+
+def odd_menu(w):
+    R = step.Raw
+    odd = "caf\udce9.xml"
+    good = w.pids[1]
+    calls = [("store_object(pid)", lambda w, s: s.store_object(odd, w.src(0))),
+             ("tag_object(pid)", lambda w, s: s.tag_object(odd, w.real_cids[0])),
+             ("tag_object(cid)", lambda w, s: s.tag_object(good, odd)),
+             ("store_metadata(pid)", lambda w, s: s.store_metadata(odd, w.docsrc(0))),
+             ("store_metadata(format)", lambda w, s: s.store_metadata(good, w.docsrc(0), odd)),
+             ("retrieve_object", lambda w, s: s.retrieve_object(odd)),
+             ("retrieve_metadata", lambda w, s: s.retrieve_metadata(odd)),
+             ("delete_object", lambda w, s: s.delete_object(odd)),
+             ("delete_metadata", lambda w, s: s.delete_metadata(odd)),
+             ("delete_metadata(format)", lambda w, s: s.delete_metadata(good, odd)),
+             ("get_hex_digest", lambda w, s: s.get_hex_digest(odd, "md5")),
+             ("store_object(checksum)", lambda w, s: s.store_object(good, w.src(0), None, odd, "md5"))]
+    m = []
+    for name, fn in calls:
+        m.append(R("%s with an identifier that cannot be encoded" % name, name + " (unencodable identifier)", fn,
+                   ["ValueError", "ok", "exists", "mismatch", "nopid"]))
+        # ... and right afterwards an ordinary call on the same instance must not block
+        m.append(step.After(m[-1], step.StoreObj(1, 0)))
+    return m
+
+
 def main(tier, replay_payload=None):
     bound = 2 if tier == "thorough" else 1
     def subset(fn, keep):
@@ -75,6 +94,8 @@ def main(tier, replay_payload=None):
     f_args = C13.c13_universe(tier)
 
     def replayer(p):
+        if p.get("harness") == "step":
+            return make_replayer(ODD_ARGS, odd_menu)(p)
         if p.get("harness") == "fault":
             return fault.replay_fault(f_args, fault_menu, p["vals"], p["clauses"], obstruct=True)
         if p.get("family") == "faulted":
@@ -100,6 +121,7 @@ def main(tier, replay_payload=None):
     C07.fold(run, outs, "C08:", 1)
     for sig in set(run.failures) - before:
         run.failures[sig]["payload"]["family"] = "faulted"
+    collect(run, step.explore_steps(ODD_ARGS, odd_menu), ODD_MINE, ODD_ARGS, odd_menu)
     res = fault.explore_faults(f_args, fault_menu, 1, obstruct=True)
     C13.fold(run, res, "C08:")
     run.functions = loader.function_lines(loader.load(), API_FUNCS + [
